@@ -538,3 +538,110 @@ Proof.
   fold (new_of e cs o). fold new. fold c2.
   destruct (negb (expr_eqb e new) && is_none (lookup c2 new)); reflexivity.
 Qed.
+
+(** ** the big step: processing [e] (with cache-free fuel [n]) brings the loop back to [rest] *)
+Definition BS (n : nat) : Prop :=
+  forall e r, simp n e = SOk r -> forall c rest, ok c -> nopend n c ->
+    exists c', ext c c' /\ ok c' /\ resolved c' e /\ steps c (e :: rest) c' rest.
+
+Lemma BS_list g : BS g -> forall l c rest,
+  (forall x, In x l -> exists v, simp g x = SOk v) -> ok c -> nopend g c ->
+  exists c', ext c c' /\ ok c' /\ (forall x, In x l -> resolved c' x) /\ steps c (l ++ rest) c' rest.
+Proof.
+  intros HBS. induction l as [|x l IH]; intros c rest Hall Hok Hnp.
+  - exists c. split; [apply ext_refl|split; [exact Hok|split; [intros ? []|apply steps_refl]]].
+  - destruct (Hall x (or_introl eq_refl)) as [v Hv].
+    destruct (HBS x v Hv c (l ++ rest) Hok Hnp) as (c1 & He1 & Hok1 & Hr1 & Hs1).
+    destruct (IH c1 rest (fun y Hy => Hall y (or_intror Hy)) Hok1 (nopend_ext _ _ _ He1 Hnp))
+      as (c2 & He2 & Hok2 & Hr2 & Hs2).
+    exists c2. split; [eapply ext_trans; eassumption|split; [exact Hok2|split]].
+    + intros y [<-|Hy]; [apply (proj1 He2); exact Hr1|apply Hr2; exact Hy].
+    + cbn [app]. eapply steps_trans; eassumption.
+Qed.
+
+(** all children are resolved: the node is rewritten, its entry written, the result followed *)
+Lemma phase3 g e r : BS g -> simp (S g) e = SOk r -> (forall r', simp g e <> SOk r') ->
+  forall c2 rest B c3 cs chg, ok c2 -> nopend (S g) c2 ->
+    (forall f, (B <= f)%nat -> visit f c2 (children e) = VOk c3 cs chg []) -> ext c2 c3 -> ok c3 ->
+    exists c', ext c2 c' /\ ok c' /\ resolved c' e /\ steps c2 (e :: rest) c' rest.
+Proof.
+  intros HBS Hs Hmin c2 rest B c3 cs chg Hok2 Hnp2 HV He23 Hok3.
+  pose proof (visit_sound B (children e) c2 (proj1 Hok2)) as Hvs.
+  rewrite (HV B (le_n _)) in Hvs. destruct Hvs as [_ Hvs]. destruct (Hvs eq_refl) as [HF Hchg]. clear Hvs.
+  subst chg.
+  destruct (simp_step_inv _ _ _ Hs) as (cs0 & o & HF0 & Ho & Hcase).
+  assert (cs0 = cs) by (eapply F2_NF_det; [eapply F2_simp_NF; exact HF0|exact HF]). subst cs0.
+  pose proof (steps_visit_done c2 e rest B c3 cs o HV Ho) as Hst. cbv zeta in Hst.
+  pose proof (nopend_ext _ _ _ He23 Hnp2) as Hnp3.
+  pose proof Hok3 as (Hinv3 & Hwf3 & Hlk3).
+  set (new := new_of e cs o) in *.
+  set (c4 := update c3 e new) in *.
+  destruct Hcase as [[Hnew Hr]|[Hnew Hsn]].
+  - (* the node is its own result *)
+    subst r. rewrite Hnew in Hst. rewrite expr_eqb_refl in Hst. cbn [negb andb] in Hst.
+    assert (Hre : resolved c4 e).
+    { exists e. apply chases_self. unfold c4. rewrite Hnew. apply lookup_update_same. }
+    exists c4. split; [|split; [|split; [exact Hre|exact Hst]]].
+    + eapply ext_trans; [exact He23|]. apply (ext_via_update c3 e new c4 Hwf3 (ext_refl _) Hre).
+    + unfold c4. rewrite Hnew. apply ok_update; try (left; reflexivity); try (right; reflexivity).
+      * exact Hok3.
+      * apply same_nf_refl.
+      * intros _. exists (S g). exact Hs.
+  - (* the result is another node *)
+    assert (Hen : expr_eqb e new = false) by (apply eqb_neq; congruence).
+    rewrite Hen in Hst. cbn [negb andb] in Hst.
+    destruct (step_sound e cs o HF Ho) as [Hsame _]. fold new in Hsame.
+    pose proof (onestep_desc e cs o HF Ho Hnew) as Hdesc. fold new in Hdesc.
+    assert (Hnself : lookup c3 e <> Some e).
+    { intros Hl. pose proof (proj2 Hinv3 _ Hl) as Hee.
+      assert (r = e) by (eapply NF_det; [exists (S g); exact Hs|exact Hee]). subst r.
+      destruct (simp_idempotent_lemma _ _ _ Hsn) as (m & Hm & Hme).
+      apply (Hmin e). apply (simp_fuel_mono _ _ _ Hme). exact Hm. }
+    assert (Hnreach : forall k r', reach c3 k e -> simp g k <> SOk r').
+    { intros k r' Hr Hk. apply (Hmin r'). eapply reach_desc; eassumption. }
+    assert (Hupd : forall k o', chases c3 k o' -> simp g k <> SOk r -> True) by auto. clear Hupd.
+    assert (Hnew4 : exists o', chases c3 new o' /\ chases c4 new o').
+    { destruct (Hwf3 new) as [o' [m Hm]]. exists o'. split; [exists m; exact Hm|].
+      destruct (chase_update_or_reach c3 e new _ _ _ Hm) as [H|H]; [exact H|].
+      exfalso. exact (Hnreach _ _ H Hsn). }
+    destruct Hnew4 as (o' & Hn3 & Hn4).
+    assert (Hok4 : ok c4).
+    { unfold c4. apply ok_update.
+      - exact Hok3.
+      - exact Hsame.
+      - intros Hc. contradiction.
+      - right. exists o'. exact Hn4.
+      - left. exact Hnself.
+      - right; right. exact Hdesc. }
+    assert (Hle4 : lookup c4 e = Some new) by apply lookup_update_same.
+    assert (Hnp4 : nopend g c4).
+    { intros k [[w Hw] Hp] r' Hk.
+      destruct (expr_eq_dec k e) as [->|Hke]; [exact (Hmin _ Hk)|].
+      unfold c4 in Hw. rewrite lookup_update_other in Hw by assumption.
+      destruct (Hwf3 k) as [ok' [m Hm]].
+      destruct (chase_update_or_reach c3 e new _ _ _ Hm) as [H|H].
+      - pose proof (chases_det _ _ _ _ H Hp). subst ok'.
+        refine (Hnp3 k _ r' _); [split; [exists w; exact Hw|exists m; exact Hm]|].
+        apply (simp_fuel_mono _ _ _ Hk). lia.
+      - exact (Hnreach _ _ H Hk). }
+    destruct (lookup c3 new) as [w|] eqn:Eln.
+    + (* the result has an entry already: it is resolved *)
+      assert (Eln4 : lookup c4 new = Some w) by (unfold c4; rewrite lookup_update_other; assumption).
+      rewrite Eln4 in Hst. cbn [is_none] in Hst.
+      destruct o' as [fv|].
+      2:{ exfalso. refine (Hnp3 new _ r _); [split; [exists w; exact Eln|exact Hn3]|].
+          apply (simp_fuel_mono _ _ _ Hsn). lia. }
+      assert (Hre : resolved c4 e).
+      { exists fv. eapply chases_step; [exact Hle4|exact Hnew|exact Hn4]. }
+      exists c4. split; [|split; [exact Hok4|split; [exact Hre|exact Hst]]].
+      eapply ext_trans; [exact He23|]. apply (ext_via_update c3 e new c4 Hwf3 (ext_refl _) Hre).
+    + (* the result is new: it is pushed and processed *)
+      assert (Eln4 : lookup c4 new = None) by (unfold c4; rewrite lookup_update_other; assumption).
+      rewrite Eln4 in Hst. cbn [is_none] in Hst.
+      destruct (HBS new r Hsn c4 rest Hok4 Hnp4) as (c5 & He45 & Hok5 & Hr5 & Hs5).
+      assert (Hre : resolved c5 e).
+      { destruct (proj2 (proj2 He45) _ _ Hle4) as [H|H]; [|exact H].
+        destruct Hr5 as [fv Hfv]. exists fv. eapply chases_step; [exact H|exact Hnew|exact Hfv]. }
+      exists c5. split; [|split; [exact Hok5|split; [exact Hre|eapply steps_trans; eassumption]]].
+      eapply ext_trans; [exact He23|]. apply (ext_via_update c3 e new c5 Hwf3 He45 Hre).
+Qed.
